@@ -1,41 +1,140 @@
-(* char_in_denote under IgnoreCase: assembly over the bracket-expression syntax. *)
+(* char_in_denote under IgnoreCase: finished classes.
+   scanCharSet folds case first and canonicalizes afterwards (fix dd13520); the finished class - which
+   canonicalize may have rewritten into a negated normal form - then goes through addCaseEquivalences
+   again: once per enclosing bracket level (the subtraction of a class is expanded with it) and once
+   more in the tree pass.  This file shows that a finished class is stable under that:
+     fin c      every level of c has well-formed canonical ranges, no bitmap, and (unless it is
+                "anything") a range part that is closed under the SimpleFold orbits of the table and
+                has no member outside the table unless big members are admitted (B);
+     ace_fin    addCaseEquivalences maps fin classes to fin classes and changes no membership on the table;
+     canon_level  canonicalize (whatever normal form it picks) preserves the level invariant. *)
 From Coq Require Import FMapPositive ZifyBool.
 From Verif Require Import Base.Prelude Model.CharClass Model.FoldD
   Proofs.CharClassRanges Proofs.CharClassProofs Proofs.CharClassElab
   Proofs.CharClassFold Proofs.CharClassFoldThm Proofs.CharClassCi Proofs.CharClassCi2 Proofs.CharClassCi3
   Proofs.CharClassCi4.
 
-Section CiDenote.
+(* ---------------------------------------------------------------- gaps of a canonical range list *)
+Lemma sorted_gap : forall R p r, sorted_from p R -> In r R ->
+  p + 1 < fst r /\ fst r <= snd r /\ mem R (snd r + 1) = false /\ mem R (fst r - 1) = false.
+Proof.
+  induction R as [|[a b] t IH]; intros p r Hs Hr; [destruct Hr|].
+  cbn [sorted_from] in Hs. destruct Hs as (S1 & S2 & S3).
+  destruct Hr as [<-|Hr]; cbn [fst snd].
+  - split; [lia|]. split; [lia|]. rewrite !mem_cons. unfold in_range; cbn [fst snd].
+    rewrite (sorted_from_mem_false b t (b + 1) S3) by lia.
+    rewrite (sorted_from_mem_false b t (a - 1) S3) by lia. split; lia.
+  - destruct (IH b r S3 Hr) as (G1 & G2 & G3 & G4).
+    split; [lia|]. split; [lia|]. rewrite !mem_cons, G3, G4. unfold in_range; cbn [fst snd]. split; lia.
+Qed.
+
+Lemma canonical_gap R r : canonical_ranges R -> In r R ->
+  fst r <= snd r /\ mem R (snd r + 1) = false /\ mem R (fst r - 1) = false.
+Proof.
+  intros Hc Hr. destruct (canonical_sorted_from R Hc) as [p Hp].
+  destruct (sorted_gap R p r Hp Hr) as (_ & G). exact G.
+Qed.
+
+(* ---------------------------------------------------------------- what canonicalize does to the range part *)
+Section Cases.
   Variable cat_in : Z -> Z -> bool.
-  Variable simple_fold to_lower : Z -> Z.
-  Hypothesis agree : forall x, In x dom_t -> simple_fold x = fold_t x /\ to_lower x = lower_t x.
-  Variable o : opts.
-  Hypothesis Hci : o_ci o = true.
 
-  Notation den := (denote cat_in simple_fold orbit_fuel).
-  Notation litd := (lit_den cat_in simple_fold orbit_fuel o).
-  Notation catd := (cat_den cat_in simple_fold orbit_fuel o).
-  Notation ace := (add_case_equivalences cat_in simple_fold orbit_fuel).
+  Definition has_top (rs : list (Z * Z)) : Prop := exists w, max_rune - 1 <= w /\ mem rs w = true.
+  Definition flipped (rs rs' : list (Z * Z)) : Prop :=
+    forall x, valid_rune x -> mem rs' x = negb (mem rs x).
+  Definition full (rs' : list (Z * Z)) : Prop := forall x, valid_rune x -> mem rs' x = true.
 
-  (* code-point members allowed under IgnoreCase lie in the good part of the table *)
-  Lemma litd_good it x : wf_item it -> ci_item_ok o it -> litd it x = true -> In x good_dom.
+  Lemma make_anything_full c : full (ranges (make_anything c)).
   Proof.
-    intros Hw Hok H. unfold lit_den in H.
-    destruct it as [a b|ng|ng|ng|ng name|ng k]; cbn [item_lit_exp] in H; cbn in Hok.
-    - cbn in H. rewrite orb_false_r in H. apply Hok. lia.
-    - destruct (o_ecma o || o_re2 o) eqn:E; [|discriminate]. rewrite (Hok eq_refl) in H.
-      cbn [existsb] in H. rewrite den_neg_if in H. cbn [denote] in H. rewrite xorb_false_l, orb_false_r in H.
-      apply good_ecma_digit. unfold mem, in_range, ecma_digit_ranges; cbn [existsb fst snd]. rewrite orb_false_r. exact H.
-    - destruct (o_ecma o) eqn:Ee.
-      + cbn [orb] in Hok. rewrite (Hok eq_refl) in H. cbn [existsb] in H.
-        rewrite den_neg_if, den_ranges_exp, xorb_false_l, orb_false_r in H. apply good_ecma_space. exact H.
-      + cbn [orb] in Hok. destruct (o_re2 o) eqn:Er; [|discriminate]. rewrite (Hok eq_refl) in H. cbn [existsb] in H.
-        rewrite den_neg_if, den_ranges_exp, xorb_false_l, orb_false_r in H. apply good_re2_space. exact H.
-    - destruct (o_ecma o || o_re2 o) eqn:E; [|discriminate]. rewrite (Hok eq_refl) in H.
-      cbn [existsb] in H. rewrite den_neg_if, den_ranges_exp, xorb_false_l, orb_false_r in H. apply good_ecma_word. exact H.
-    - discriminate.
-    - subst ng. cbn in Hw. cbn [existsb] in H.
-      rewrite den_neg_if, den_ranges_exp, xorb_false_l, orb_false_r in H. apply (good_posix k Hw). exact H.
+    intros x Hx. unfold make_anything; cbn [ranges]. unfold mem, in_range; cbn [existsb fst snd].
+    unfold valid_rune, max_rune in *. lia.
+  Qed.
+
+  Ltac mlia := unfold max_rune in *; lia.
+
+  Lemma nf1_cases c : wf_ranges (ranges c) ->
+    normal_form_1 c = c \/
+    (neg (normal_form_1 c) = true /\ has_top (ranges c) /\ flipped (ranges c) (ranges (normal_form_1 c))).
+  Proof.
+    intros Hw. unfold has_top, flipped, valid_rune, normal_form_1, wf_ranges, wf_range in *.
+    destruct (negb (neg c) && no_sub c && no_cats c); [|left; reflexivity].
+    destruct (ranges c) as [|[a0 b0] [|[a1 b1] [|]]] eqn:Er; try (left; reflexivity).
+    - inversion Hw as [|? ? W0 _]; subst. destruct W0 as (W1 & W2 & W3); cbn [fst snd] in *.
+      destruct (a0 =? 0) eqn:E0.
+      + destruct (b0 =? max_rune - 1) eqn:E1; [|left; reflexivity]. right. split; [reflexivity|]. split.
+        * exists (max_rune - 1). split; [mlia|]. unfold mem, in_range; cbn. mlia.
+        * intros x Hx. unfold valid_rune in Hx. cbn [ranges set_ranges set_neg]. unfold mem, in_range; cbn. mlia.
+      + destruct (a0 =? 1) eqn:E1; [|left; reflexivity].
+        destruct (b0 >=? max_rune) eqn:E2; [|left; reflexivity]. right. split; [reflexivity|]. split.
+        * exists max_rune. split; [mlia|]. unfold mem, in_range; cbn. mlia.
+        * intros x Hx. unfold valid_rune in Hx. cbn [ranges set_ranges set_neg]. unfold mem, in_range; cbn. mlia.
+    - inversion Hw as [|? ? W0 Hw']; subst. inversion Hw' as [|? ? W0' _]; subst.
+      destruct W0 as (W1 & W2 & W3); destruct W0' as (W4 & W5 & W6); cbn [fst snd] in *.
+      destruct ((a0 =? 0) && (b1 >=? max_rune) && (b0 <? a1 - 1)) eqn:E; [|left; reflexivity].
+      right. split; [reflexivity|]. split.
+      * exists max_rune. split; [mlia|]. unfold mem, in_range; cbn. mlia.
+      * intros x Hx. unfold valid_rune in Hx. cbn [ranges set_ranges set_neg]. unfold mem, in_range; cbn. mlia.
+  Qed.
+
+  Lemma nf2_cases c : wf_ranges (ranges c) ->
+    normal_form_2 c = c \/ (normal_form_2 c = make_anything c /\ has_top (ranges c)).
+  Proof.
+    intros Hw. unfold has_top, normal_form_2, wf_ranges, wf_range in *.
+    destruct (negb (neg c) && no_sub c); [|left; reflexivity].
+    destruct (ranges c) as [|[a0 b0] [|]] eqn:Er; try (left; reflexivity).
+    inversion Hw as [|? ? W0 _]; subst. destruct W0 as (W1 & W2 & W3); cbn [fst snd] in *.
+    destruct ((a0 =? 0) && (b0 >=? max_rune)) eqn:E; [|left; reflexivity].
+    right. split; [reflexivity|]. exists max_rune. split; [mlia|]. unfold mem, in_range; cbn. mlia.
+  Qed.
+
+  Lemma nf3_cases c : wf_ranges (ranges c) ->
+    normal_form_3 cat_in c = c \/
+    (has_top (ranges c) /\
+     (normal_form_3 cat_in c = make_anything c \/ flipped (ranges c) (ranges (normal_form_3 cat_in c)))).
+  Proof.
+    intros Hw. unfold has_top, flipped, valid_rune, normal_form_3, wf_ranges, wf_range in *.
+    destruct (negb (neg c) && no_sub c && negb (no_cats c)); [|left; reflexivity].
+    destruct (ranges c) as [|[a0 b0] [|[a1 b1] [|]]] eqn:Er; try (left; reflexivity).
+    inversion Hw as [|? ? W0 Hw']; subst. inversion Hw' as [|? ? W0' _]; subst.
+    destruct W0 as (W1 & W2 & W3); destruct W0' as (W4 & W5 & W6); cbn [fst snd] in *.
+    destruct ((a0 =? 0) && (b0 + 2 =? a1) && (b1 =? max_rune)) eqn:E; [|left; reflexivity].
+    right. split.
+    - exists max_rune. split; [mlia|]. unfold mem, in_range; cbn. mlia.
+    - destruct (char_in_categories cat_in (cats c) (b0 + 1)); [left; reflexivity|right].
+      intros x Hx. unfold valid_rune in Hx. cbn [ranges set_ranges set_neg set_cats]. unfold mem, in_range; cbn. mlia.
+  Qed.
+
+  Lemma nf23_neg c : neg c = true -> normal_form_3 cat_in (normal_form_2 c) = c.
+  Proof.
+    intros Hn. unfold normal_form_2. rewrite Hn. cbn [negb andb]. unfold normal_form_3. rewrite Hn. reflexivity.
+  Qed.
+
+  Lemma nf3_anything c : normal_form_3 cat_in (make_anything c) = make_anything c.
+  Proof. unfold normal_form_3. cbn [cats make_anything no_cats negb]. rewrite andb_false_r. reflexivity. Qed.
+
+  (* the range part after canonicalize: the same set of code points, or - only when the class reached
+     up to the last two code points - its complement or everything *)
+  Lemma canonicalize_ranges_cases c : wf_ranges (ranges c) ->
+    (forall x, valid_rune x -> mem (ranges (canonicalize cat_in c)) x = mem (ranges c) x) \/
+    (has_top (ranges c) /\
+     (flipped (ranges c) (ranges (canonicalize cat_in c)) \/ full (ranges (canonicalize cat_in c)))).
+  Proof.
+    intros Hw. rewrite canonicalize_unfold. destruct (ranges c) as [|r t] eqn:Er; [left; intros; rewrite Er; reflexivity|].
+    rewrite <- Er in *.
+    set (c0 := set_ranges c (merged (ranges c))).
+    assert (M0 : forall x, mem (ranges c0) x = mem (ranges c) x) by (intros x; apply merged_mem; exact Hw).
+    assert (W0 : wf_ranges (ranges c0)) by (apply merged_wf; exact Hw).
+    assert (Top : has_top (ranges c0) -> has_top (ranges c)).
+    { intros [w [H1 H2]]. exists w. split; [exact H1|]. rewrite <- M0. exact H2. }
+    destruct (nf1_cases c0 W0) as [E1|(N1 & T1 & F1)].
+    - rewrite E1. destruct (nf2_cases c0 W0) as [E2|(E2 & T2)].
+      + rewrite E2. destruct (nf3_cases c0 W0) as [E3|(T3 & [E3|F3])].
+        * rewrite E3. left. intros x _. apply M0.
+        * rewrite E3. right. split; [exact (Top T3)|]. right. apply make_anything_full.
+        * right. split; [exact (Top T3)|]. left. intros x Hx. rewrite (F3 x Hx), M0. reflexivity.
+      + rewrite E2, nf3_anything. right. split; [exact (Top T2)|]. right. apply make_anything_full.
+    - rewrite (nf23_neg _ N1). right. split; [exact (Top T1)|]. left.
+      intros x Hx. rewrite (F1 x Hx), M0. reflexivity.
   Qed.
 
   Lemma canonicalize_anything c : anything c = true -> anything (canonicalize cat_in c) = true.
@@ -57,164 +156,133 @@ Section CiDenote.
     destruct ((a0 =? 0) && (b0 + 2 =? a1) && (b1 =? max_rune)); [|exact H2].
     destruct (char_in_categories cat_in (cats c2) (b0 + 1)); [reflexivity|exact H2].
   Qed.
+End Cases.
 
-  Lemma fine_init : fine cat_in (Cls [] [] None true false None) (fun _ => false) (fun _ => false).
-  Proof. split; [intros _; split; reflexivity|intros H; discriminate]. Qed.
+(* ---------------------------------------------------------------- finished classes *)
+Section Fin.
+  Variable cat_in : Z -> Z -> bool.
+  Variable simple_fold to_lower : Z -> Z.
+  Hypothesis agree : forall x, In x dom_t -> simple_fold x = fold_t x /\ to_lower x = lower_t x.
+  Variable B : Prop.
+  Hypothesis Hout : B -> outside_ok simple_fold.
 
-  Definition done (s : csyn) (c' : cls) : Prop :=
-    canonical c' /\ no_bitmaps c' /\
-    forall z, In z dom_t -> plain_in cat_in c' z = den (sem o s) z.
+  Notation ace := (add_case_equivalences cat_in simple_fold orbit_fuel).
 
-  Lemma dom_valid z : In z dom_t -> valid_rune z.
-  Proof. intros H. pose proof (dom_bounds z H). unfold valid_rune. lia. Qed.
+  (* membership does not distinguish the runes of one orbit of the table *)
+  Definition closed_t (rs : list (Z * Z)) : Prop :=
+    forall x, In x dom_t -> forall y, In y (orb x) -> mem rs y = mem rs x.
+  Definition members_ok (rs : list (Z * Z)) : Prop :=
+    forall x, mem rs x = true -> In x dom_t \/ B.
 
-  Theorem scan_ci s : wf_syn s -> ci_syn_ok o s ->
-    exists c', ace (scan_char_set cat_in to_lower o s) = Ok c' /\ done s c'.
+  Definition lvl (rs : list (Z * Z)) (an : bool) (asc : option (Z * Z)) : Prop :=
+    wf_ranges rs /\ canonical_ranges rs /\ asc = None /\ (an = true \/ (closed_t rs /\ members_ok rs)).
+
+  Fixpoint fin (c : cls) : Prop :=
+    match c with
+    | Cls rs _ sb _ an asc => lvl rs an asc /\ match sb with Some s => fin s | None => True end
+    end.
+
+  Lemma fin_intro c : lvl (ranges c) (anything c) (ascii c) ->
+    match sub c with Some s => fin s | None => True end -> fin c.
+  Proof. destruct c; cbn; auto. Qed.
+
+  Lemma fin_canonical c : fin c -> canonical c /\ no_bitmaps c.
   Proof.
-    induction s as [ng items | ng items s' IH] using csyn_induction; intros Hw Hok;
-      cbn in Hw, Hok; destruct Hw as [Hw Hw']; destruct Hok as [Hok Hok'].
-    all: assert (Hg : Forall (item_guard o) items) by
-        (apply Forall_forall; intros it Hit; apply ci_item_guard; rewrite Forall_forall in Hok; auto).
-    all: destruct (items_step cat_in simple_fold orbit_fuel o items _ scan_inv_init Hw Hg) as [Hinv _].
-    all: pose proof (fine_items cat_in simple_fold to_lower agree o Hci items _ _ _ scan_inv_init fine_init Hw Hok) as Hf.
-    all: cbn [scan_char_set]; rewrite Hci.
-    all: set (c0 := fold_left (elab_item cat_in o) items (Cls [] [] None true false None)) in *.
-    all: destruct Hinv as (I1 & I2 & I3 & I4 & I5 & I6).
-    all: destruct Hf as [F1 F2].
-    (* what the items denote, in terms of sem *)
-    all: assert (HL : forall x, (false || existsb (fun it => litd it x) items) =
-                                den (CUnion (flat_map (item_lit_exp o) items)) x)
-        by (intros x; cbn [orb denote]; rewrite existsb_flat_map; reflexivity).
-    all: assert (HK : forall x, (false || existsb (fun it => catd it x) items) =
-                                existsb (fun e => den e x) (flat_map (item_cat_exp o) items))
-        by (intros x; cbn [orb]; rewrite existsb_flat_map; reflexivity).
-    - (* no subtraction *)
-      set (c00 := set_neg c0 ng).
-      assert (Hw0 : wf_ranges (ranges c00)) by exact I4.
-      destruct (anything c0) eqn:Ea.
-      + (* X and not-X among the categories: the class is "anything" *)
-        pose proof (canonicalize_same_set cat_in c00 Hw0) as (S1 & S2 & S3 & S4 & S5).
-        pose proof (canonicalize_anything c00 Ea) as Ha1.
-        set (c1 := canonicalize cat_in c00) in *.
-        assert (Hl : add_lowercase cat_in to_lower c1 = c1) by (unfold add_lowercase; rewrite Ha1; reflexivity).
-        rewrite Hl. destruct c1 as [rs cs sb ngc an asc] eqn:Ec1. cbn [sub ascii anything ranges] in *.
-        subst an. cbn [sub set_neg c00] in S1. rewrite I2 in S1. subst sb.
-        cbn [ascii set_neg c00] in S2. rewrite I3 in S2. subst asc.
-        eexists. split; [cbn [add_case_equivalences bind]; reflexivity|].
-        split; [cbn; auto|]. split; [cbn; auto|].
-        intros z Hz. pose proof (dom_valid z Hz) as Hv.
-        rewrite plain_in_top. unfold sub_in; cbn [sub]. rewrite andb_true_r. rewrite S5 by exact Hv.
-        rewrite top_in_body. cbn [neg set_neg c00]. change (body cat_in c00 z) with (body cat_in c0 z).
-        rewrite (any_inv_body cat_in c0 z I6 Ea Hv).
-        rewrite sem_unfold. cbn zeta. rewrite Hci. rewrite den_neg_if. f_equal.
-        cbn [denote existsb]. rewrite <- HK. rewrite (F2 eq_refl z). rewrite orb_true_r. reflexivity.
-      + destruct (F1 eq_refl) as [G1 G2].
-        assert (Hgood : forall x, mem (ranges c00) x = true -> In x good_dom).
-        { intros x Hx. change (ranges c00) with (ranges c0) in Hx. rewrite G1 in Hx. cbn [orb] in Hx.
-          apply existsb_exists in Hx. destruct Hx as [it [Hit Hx]].
-          rewrite Forall_forall in Hw, Hok. apply (litd_good it x (Hw it Hit) (Hok it Hit) Hx). }
-        assert (Hb : forall y, mem (ranges c00) y = true -> y < max_rune - 1).
-        { intros y Hy. apply (dom_bounds y). exact (proj1 (proj1 (good_dom_In y) (Hgood y Hy))). }
-        rewrite (canonicalize_bounded cat_in simple_fold to_lower agree c00 Hw0 Hb).
-        set (c1 := set_ranges c00 (merged (ranges c00))).
-        assert (M1 : forall x, mem (ranges c1) x = mem (ranges c0) x) by (intros x; cbn [ranges set_ranges c1]; apply merged_mem; exact Hw0).
-        destruct (ci_closure_sub cat_in simple_fold to_lower agree c1 None) as (c' & Hc' & N1 & N2 & N3 & N4 & N5 & N6 & N7 & N8).
-        { exact Ea. }
-        { cbn [ranges set_ranges c1]. apply merged_wf. exact Hw0. }
-        { intros x Hx. rewrite M1 in Hx. apply Hgood. exact Hx. }
-        { cbn [sub set_ranges c1 set_neg c00]. rewrite I2. reflexivity. }
-        exists c'. split; [exact Hc'|].
-        split; [apply canonical_intro; [exact N6|rewrite N3; exact I]|].
-        split; [apply no_bitmaps_intro; [rewrite N5; cbn [ascii set_ranges c1 set_neg c00]; exact I3|rewrite N3; exact I]|].
-        intros z Hz. rewrite plain_in_top. unfold sub_in. rewrite N3. rewrite andb_true_r.
-        unfold top_in. rewrite N1, N2. cbn [neg cats set_ranges c1 set_neg c00].
-        rewrite (N8 z Hz). rewrite G2.
-        rewrite sem_unfold. cbn zeta. rewrite Hci. rewrite den_neg_if. f_equal.
-        cbn [denote existsb]. rewrite <- HK. f_equal.
-        apply existsb_ext'. intros x. rewrite M1, G1. apply HL.
-    - (* with a subtraction *)
-      destruct (IH Hw' Hok') as (s'' & Hs'' & D1 & D2 & D3).
-      set (sc := scan_char_set cat_in to_lower o s') in *.
-      set (c00 := set_neg (add_subtraction c0 sc) ng).
-      assert (Hw0 : wf_ranges (ranges c00)) by exact I4.
-      destruct (anything c0) eqn:Ea.
-      + pose proof (canonicalize_same_set cat_in c00 Hw0) as (S1 & S2 & S3 & S4 & S5).
-        pose proof (canonicalize_anything c00 Ea) as Ha1.
-        set (c1 := canonicalize cat_in c00) in *.
-        assert (Hl : add_lowercase cat_in to_lower c1 = c1) by (unfold add_lowercase; rewrite Ha1; reflexivity).
-        rewrite Hl. destruct c1 as [rs cs sb ngc an asc] eqn:Ec1. cbn [sub ascii anything ranges] in *.
-        subst an. cbn [sub set_neg c00 add_subtraction set_sub] in S1. subst sb.
-        cbn [ascii set_neg c00 add_subtraction set_sub] in S2. rewrite I3 in S2. subst asc.
-        eexists. split; [cbn [add_case_equivalences]; rewrite Hs''; cbn [bind]; reflexivity|].
-        split; [cbn; auto|]. split; [cbn; auto|].
-        intros z Hz. pose proof (dom_valid z Hz) as Hv.
-        cbn [plain_in].
-        assert (Ht : top_in cat_in (Cls rs cs (Some sc) ngc true None) z = xorb ngc (mem rs z || cats_in cat_in cs z)) by reflexivity.
-        rewrite <- Ht. rewrite S5 by exact Hv.
-        rewrite top_in_body. cbn [neg set_neg c00].
-        change (body cat_in c00 z) with (body cat_in c0 z).
-        rewrite (any_inv_body cat_in c0 z I6 Ea Hv).
-        rewrite (D3 z Hz).
-        rewrite sem_unfold. cbn zeta. rewrite Hci. cbn [denote]. rewrite den_neg_if. f_equal. f_equal.
-        cbn [denote existsb]. rewrite <- HK. rewrite (F2 eq_refl z). rewrite orb_true_r. reflexivity.
-      + destruct (F1 eq_refl) as [G1 G2].
-        assert (Hgood : forall x, mem (ranges c00) x = true -> In x good_dom).
-        { intros x Hx. change (ranges c00) with (ranges c0) in Hx. rewrite G1 in Hx. cbn [orb] in Hx.
-          apply existsb_exists in Hx. destruct Hx as [it [Hit Hx]].
-          rewrite Forall_forall in Hw, Hok. apply (litd_good it x (Hw it Hit) (Hok it Hit) Hx). }
-        assert (Hb : forall y, mem (ranges c00) y = true -> y < max_rune - 1).
-        { intros y Hy. apply (dom_bounds y). exact (proj1 (proj1 (good_dom_In y) (Hgood y Hy))). }
-        rewrite (canonicalize_bounded cat_in simple_fold to_lower agree c00 Hw0 Hb).
-        set (c1 := set_ranges c00 (merged (ranges c00))).
-        assert (M1 : forall x, mem (ranges c1) x = mem (ranges c0) x) by (intros x; cbn [ranges set_ranges c1]; apply merged_mem; exact Hw0).
-        destruct (ci_closure_sub cat_in simple_fold to_lower agree c1 (Some s'')) as (c' & Hc' & N1 & N2 & N3 & N4 & N5 & N6 & N7 & N8).
-        { exact Ea. }
-        { cbn [ranges set_ranges c1]. apply merged_wf. exact Hw0. }
-        { intros x Hx. rewrite M1 in Hx. apply Hgood. exact Hx. }
-        { cbn [sub set_ranges c1 set_neg c00 add_subtraction set_sub]. exists s''. split; [exact Hs''|reflexivity]. }
-        exists c'. split; [exact Hc'|].
-        split; [apply canonical_intro; [exact N6|rewrite N3; exact D1]|].
-        split; [apply no_bitmaps_intro; [rewrite N5; cbn [ascii set_ranges c1 set_neg c00 add_subtraction set_sub]; exact I3|rewrite N3; exact D2]|].
-        intros z Hz. rewrite plain_in_top. unfold sub_in. rewrite N3. rewrite (D3 z Hz).
-        unfold top_in. rewrite N1, N2. cbn [neg cats set_ranges c1 set_neg c00 add_subtraction set_sub].
-        rewrite (N8 z Hz). rewrite G2.
-        rewrite sem_unfold. cbn zeta. rewrite Hci. cbn [denote]. rewrite den_neg_if. f_equal. f_equal.
-        cbn [denote existsb]. rewrite <- HK. f_equal.
-        apply existsb_ext'. intros x. rewrite M1, G1. apply HL.
+    induction c as [rs cs ng an asc | rs cs s ng an asc IH] using cls_induction; cbn;
+      intros [(L1 & L2 & L3 & _) Hs]; [auto|]. destruct (IH Hs). auto.
   Qed.
 
-  (* char_in_denote under IgnoreCase, on the runes of the table *)
-  Theorem char_in_denote_ci s c z :
-    wf_syn s -> ci_syn_ok o s -> In z dom_t ->
-    elab cat_in simple_fold to_lower orbit_fuel s o = Ok c ->
-    char_in cat_in c z = den (sem o s) z.
+  Lemma has_top_B rs : members_ok rs -> has_top rs -> B.
   Proof.
-    intros Hw Hok Hz He. unfold elab in He. rewrite Hci in He.
-    destruct (scan_ci s Hw Hok) as (c' & Hc' & D1 & D2 & D3). rewrite Hc' in He. injection He as <-.
-    destruct (lookup_agree cat_in c' D1 (no_bitmaps_ok cat_in c' D2) z) as [_ L]. rewrite L. apply D3. exact Hz.
+    intros Hm [w [H1 H2]]. destruct (Hm w H2) as [Hd|HB]; [|exact HB].
+    pose proof (dom_bounds w Hd). lia.
   Qed.
 
-End CiDenote.
+  (* canonicalize keeps the level invariant, whichever normal form it picks *)
+  Lemma canon_level c :
+    wf_ranges (ranges c) -> ascii c = None ->
+    (anything c = true \/ (closed_t (ranges c) /\ members_ok (ranges c))) ->
+    lvl (ranges (canonicalize cat_in c)) (anything (canonicalize cat_in c)) (ascii (canonicalize cat_in c)).
+  Proof.
+    intros Hw Ha Hl. destruct (canonicalize_same_set cat_in c Hw) as (S1 & S2 & S3 & S4 & _).
+    split; [exact S3|]. split; [exact S4|]. split; [congruence|].
+    destruct Hl as [Hl|[Hc Hm]]; [left; apply canonicalize_anything; exact Hl|]. right.
+    destruct (canonicalize_ranges_cases cat_in c Hw) as [Same|[Top [Flip|Full]]].
+    - split.
+      + intros x Hx y Hy. pose proof (dom_valid _ (orb_in_dom x y Hx Hy)) as Vy. pose proof (dom_valid x Hx) as Vx.
+        rewrite (Same y Vy), (Same x Vx). apply Hc; assumption.
+      + intros x Hx. pose proof (mem_valid _ x S3 Hx) as Vx. rewrite (Same x Vx) in Hx. apply Hm. exact Hx.
+    - pose proof (has_top_B _ Hm Top) as HB. split; [|intros x _; right; exact HB].
+      intros x Hx y Hy. pose proof (dom_valid _ (orb_in_dom x y Hx Hy)) as Vy. pose proof (dom_valid x Hx) as Vx.
+      rewrite (Flip y Vy), (Flip x Vx). f_equal. apply Hc; assumption.
+    - pose proof (has_top_B _ Hm Top) as HB. split; [|intros x _; right; exact HB].
+      intros x Hx y Hy. pose proof (dom_valid _ (orb_in_dom x y Hx Hy)) as Vy. pose proof (dom_valid x Hx) as Vx.
+      rewrite (Full y Vy), (Full x Vx). reflexivity.
+  Qed.
 
-(* all of ASCII and all of pair_dom are admissible members under IgnoreCase; exactly three runes of
-   the table are not *)
-Lemma bad_points_ok :
-  bad_pts = [215; 304; 7838] /\
-  forallb (fun x => zmem x good_dom) (ascii_dom ++ pair_dom) = true.
-Proof.
-  split; [vm_compute; reflexivity|].
-  change ((fun g => forallb (fun x => zmem x g) (ascii_dom ++ pair_dom)) good_dom = true).
-  vm_compute. reflexivity.
-Qed.
+  Definition opt_in (sb : option cls) (z : Z) : bool :=
+    match sb with Some s => plain_in cat_in s z | None => false end.
 
-Lemma ascii_good x : 0 <= x < 128 -> In x good_dom.
-Proof.
-  intros H. pose proof (proj2 bad_points_ok) as G. rewrite forallb_forall in G.
-  apply zmem_In. apply G. apply in_or_app. left. apply in_ascii_dom. exact H.
-Qed.
+  (* one level of addCaseEquivalences on a finished class *)
+  Lemma ace_level rs cs sb sb' ng an asc :
+    lvl rs an asc ->
+    (forall z, In z dom_t -> opt_in sb' z = opt_in sb z) ->
+    match sb' with Some s => fin s | None => True end ->
+    exists c',
+      (if an then Ok (Cls rs cs sb' ng an asc)
+       else do e <- equivalences_of_ranges simple_fold orbit_fuel rs ;
+            Ok (canonicalize cat_in (Cls (rs ++ e) cs sb' ng an asc))) = Ok c' /\
+      fin c' /\ forall z, In z dom_t -> plain_in cat_in c' z = plain_in cat_in (Cls rs cs sb ng an asc) z.
+  Proof.
+    intros (L1 & L2 & L3 & L4) Hsub Hfin. destruct an.
+    - eexists. split; [reflexivity|]. split.
+      + cbn [fin]. split; [|exact Hfin]. unfold lvl. auto.
+      + intros z Hz. cbn [plain_in]. specialize (Hsub z Hz). unfold opt_in in Hsub. rewrite Hsub. reflexivity.
+    - destruct L4 as [L4|[Hc Hm]]; [discriminate|].
+      destruct (equivalences_of_ranges_gen cat_in simple_fold to_lower agree rs) as (T & HT & HTs).
+      { intros x Hx. apply (ceq_ok cat_in simple_fold to_lower agree B Hout x (mem_valid rs x L1 Hx) (Hm x Hx)). }
+      rewrite HT. cbn [bind].
+      set (c2 := Cls (rs ++ map (fun x : Z => (x, x)) T) cs sb' ng false asc).
+      assert (InT : forall z, In z T -> valid_rune z /\ (In z dom_t \/ B) /\ (In z dom_t -> mem rs z = true)).
+      { intros z Hz. apply HTs in Hz. destruct Hz as (x & Hx & Hz).
+        destruct (proj2 (ceq_ok cat_in simple_fold to_lower agree B Hout x (mem_valid rs x L1 Hx) (Hm x Hx)) z Hz)
+          as [Zv [(Xd & Zd & Zo)|(HB & Xn & Zn)]].
+        - split; [exact Zv|]. split; [left; exact Zd|]. intros _.
+          rewrite (Hc x Xd z); [exact Hx|]. rewrite orb_unfold. right. rewrite orb_unfold in Zo. exact Zo.
+        - split; [exact Zv|]. split; [right; exact HB|]. intros Zd. contradiction. }
+      assert (W2 : wf_ranges (ranges c2)).
+      { cbn [ranges c2]. apply wf_ranges_app; [exact L1|]. unfold wf_ranges. apply Forall_forall. intros r Hr.
+        apply in_map_iff in Hr. destruct Hr as [z [<- Hz]]. destruct (InT z Hz) as [Zv _]. unfold valid_rune in Zv.
+        unfold wf_range; cbn [fst snd]. lia. }
+      (* on the table the added equivalences are members already *)
+      assert (K : forall z, In z dom_t -> mem (ranges c2) z = mem rs z).
+      { intros z Hz. cbn [ranges c2]. rewrite mem_app. destruct (mem rs z) eqn:E; [reflexivity|]. cbn [orb].
+        apply Bool.not_true_is_false. intros H. apply mem_singles in H. destruct (InT z H) as (_ & _ & Hin).
+        rewrite (Hin Hz) in E. discriminate. }
+      assert (Hc2 : closed_t (ranges c2)).
+      { intros x Hx y Hy. rewrite (K y (orb_in_dom x y Hx Hy)), (K x Hx). apply Hc; assumption. }
+      assert (Hm2 : members_ok (ranges c2)).
+      { intros x Hx. cbn [ranges c2] in Hx. rewrite mem_app in Hx. apply orb_prop in Hx. destruct Hx as [Hx|Hx].
+        - apply Hm. exact Hx.
+        - apply mem_singles in Hx. apply (InT x Hx). }
+      eexists. split; [reflexivity|].
+      destruct (canonicalize_same_set cat_in c2 W2) as (S1 & S2 & S3 & S4 & S5).
+      split.
+      + apply fin_intro.
+        * apply canon_level; [exact W2|exact L3|right; split; assumption].
+        * rewrite S1. exact Hfin.
+      + intros z Hz. rewrite plain_in_top. rewrite (S5 z (dom_valid z Hz)). unfold sub_in. rewrite S1.
+        cbn [sub c2 plain_in]. unfold top_in. cbn [neg cats c2]. rewrite (K z Hz).
+        specialize (Hsub z Hz). unfold opt_in in Hsub. rewrite Hsub. reflexivity.
+  Qed.
 
-Lemma pair_good x : In x pair_dom -> In x good_dom.
-Proof.
-  intros H. pose proof (proj2 bad_points_ok) as G. rewrite forallb_forall in G.
-  apply zmem_In. apply G. apply in_or_app. right. exact H.
-Qed.
+  Theorem ace_fin c : fin c ->
+    exists c', ace c = Ok c' /\ fin c' /\ forall z, In z dom_t -> plain_in cat_in c' z = plain_in cat_in c z.
+  Proof.
+    induction c as [rs cs ng an asc | rs cs s ng an asc IH] using cls_induction; cbn [fin]; intros [Hl Hs].
+    - cbn [add_case_equivalences bind]. apply (ace_level rs cs None None ng an asc Hl); [reflexivity|exact I].
+    - destruct (IH Hs) as (s' & Hs' & F' & P'). cbn [add_case_equivalences]. rewrite Hs'. cbn [bind].
+      apply (ace_level rs cs (Some s) (Some s') ng an asc Hl); [exact P'|exact F'].
+  Qed.
+
+End Fin.
